@@ -26,6 +26,43 @@ theorem wiring_complete : WiringComplete = true := by decide
 /-- non-vacuity of the table: eleven pointers, and the entry points include the sized and nothrow forms -/
 theorem wiring_nonempty : 11 ≤ fptrs.length ∧ 21 ≤ entries.length ∧ threadSafeOn.length = fptrs.length := by decide
 
+/-! ## save / restore of the pointer table (regenerated copy lists) -/
+
+/-- the copy lists only mention declared variables; one saved copy per pointer -/
+theorem copies_well_formed : copiesWellFormed = true := by decide +kernel
+
+/-- `restoreNewDeleteOverloads (saveAndDisableNewDeleteOverloads s)` puts every one of the eleven
+    pointers back where it was and the counter back to its value — for the thread-safe
+    configuration (the one the property is about), and for the default and the switched-off one.
+    A copy dropped from either function breaks this obligation. -/
+theorem save_restore_roundtrip :
+    ∀ s ∈ [threadSafeConfig, defaultConfig, offConfig],
+      s.save.restore.pointers = s.pointers ∧ s.save.restore.counter = s.counter := by decide +kernel
+
+/-- in particular every pointer is still on a function that locks first -/
+theorem threadsafe_survives_save_restore : threadSafeConfig.save.restore.allLocked = true := by decide +kernel
+
+/-- between save and restore the overloads are off -/
+theorem save_disables : threadSafeConfig.save.pointers = offConfig.pointers := by decide +kernel
+
+/-- nested cycles (only the outermost pair copies) and repeated cycles (the saved copies then hold
+    the thread-safe functions) -/
+theorem save_restore_nested_and_repeated :
+    threadSafeConfig.save.save.restore.restore.pointers = threadSafeConfig.pointers ∧
+    threadSafeConfig.save.restore.save.restore.pointers = threadSafeConfig.pointers ∧
+    threadSafeConfig.save.restore.defaultOn.threadSafeOn.save.restore.allLocked = true := by decide +kernel
+
+/-- the fresh-process history: thread-safe mode switched on before the first tracked allocation,
+    so that the cycle inside the first `getGlobalDetector()` call runs under it -/
+theorem first_detector_call_keeps_threadsafe :
+    Ptrs.initial.threadSafeOn.save.restore.allLocked = true ∧
+    Ptrs.initial.threadSafeOn.save.restore.pointers = threadSafeConfig.pointers := by decide +kernel
+
+/-- and the switch itself reaches all eleven pointers from any of the configurations -/
+theorem switch_on_locks_all :
+    ∀ s ∈ [Ptrs.initial, defaultConfig, offConfig, threadSafeConfig.save], s.threadSafeOn.allLocked = true := by
+  decide +kernel
+
 /-! ## lock discipline -/
 
 /-- A wrapper whose body reports no misuse leaves the lock free (and did get it). -/
